@@ -1,9 +1,9 @@
 Require Extraction.
 Require Import ExtrOcamlBasic ExtrOcamlString.
 From Coq Require Import ZArith NArith List String.
-From RC Require Import lib.Pep440 model.StrC14 model.FileNameC14 model.PyRequiresC14 model.IndexPageC14.
+From RC Require Import lib.Pep440 model.StrC14 model.FileNameC14 model.PyRequiresC14 model.IndexPageC14 model.ResolveC14.
 Extraction Language OCaml.
 Extraction "../build/ocaml/C14/model.ml" N.succ Z.succ Pos.succ Nat.add
   vcmp clause_match spec_contains file_to_cand parse_source parse_wheel check_python gate_skip offered run find_links hash_of_resource
   splitext_ext basename strip remove_all split_on ends_with after_last lower drop_last num dec digits_ne
-  containsb before_first after_first wheel_name sdist_name is_opchar.
+  containsb before_first after_first wheel_name sdist_name is_opchar resolve_seq sha_of_resource.
